@@ -22,6 +22,14 @@ func (rv RV) val() Val {
 	return rv.V
 }
 
+// rval: like val, and logs the read of an addressable location (vrt.Par)
+func (ex *Exec) rval(rv RV) Val {
+	if rv.Addr != nil {
+		ex.logCell(rv.Addr, false)
+	}
+	return rv.val()
+}
+
 func (rv RV) kind() int { return kindOf(rv.T) }
 
 func (ex *Exec) rtypeVal(t types.Type) Val {
@@ -235,6 +243,7 @@ func reflectModels() map[string]modelFn {
 		if rv.RO {
 			ex.rpanic("reflect.Value.Interface: cannot return value obtained from unexported field or method")
 		}
+		ex.rval(rv)
 		return rv.asIface()
 	})
 	v("CanInterface", func(ex *Exec, rv RV, a []Val) Val {
@@ -329,6 +338,7 @@ func reflectModels() map[string]modelFn {
 		}
 		nv := ex.rvAssignTo(x, rv.T, "reflect.Set")
 		ex.checkFrozenPtr(rv.Addr)
+		ex.logCell(rv.Addr, true)
 		storeInto(rv.Addr, nv)
 		return nil
 	})
